@@ -47,18 +47,22 @@ theorem noAdj_insert {P Q : List HTree} {t : HTree} (h : noAdjacentText (P ++ Q)
 theorem textData_map {φ : HTree → HTree} (hφ : KidMap φ) (k : HTree) : textData (φ k) = textData k := by
   unfold textData; rw [hφ.value]
 
-/-- The far geometry. -/
-theorem insertAfterTail_far {f : Forest} {c : Nat} {t : HTree} {q : Nat} {vq : Value} {A : List HTree}
-    {kr : HTree} {B : List HTree} {X Y : Forest} {φ : HTree → HTree} (inv : f.Inv) (norm : f.Normal)
-    (F : Far f (Keep.resident c) c t q vq (A ++ kr :: B) X Y φ) (sq : SiteAt f q vq (A ++ kr :: B))
+/-- The second half of `insert_after` against the specification, given the package `Far` and what
+    the model reads off the destination list (`View`). -/
+theorem insertAfterTail_core {f : Forest} {c : Nat} {t : HTree} {q : Nat} {vq : Value} {A : List HTree}
+    {kr : HTree} {B : List HTree} {X Y : Forest} {φ : HTree → HTree} (inv : f.Inv)
+    (F : Far f (Keep.resident c) c t q vq (A ++ kr :: B) X Y φ) (V : View f (A ++ kr :: B))
+    (hpar : f.parent? kr.handle = some q)
+    (hnextV : X = f → f.nextSibling kr.handle = nextOf B kr)
+    (hplace : X.checkedInsertAfter kr.handle c = (Y.editAt (some q) (insertAfterTop kr.handle t), true))
     (hgc : f.get? c = some t) (hX : X = f ∨ textData t = none) (hrc : kr.handle ≠ c)
-    (hkrn : kr.value.isNormal = true) (hq : q ∉ handles t)
+    (hkrn : kr.value.isNormal = true)
     (hsame : ¬ nextOf B kr = some c)
     (hocc : Dest.occupiedBy f c (.after kr.handle) = false) :
     (insertAfterTail X kr.handle c).1 = specMove (Keep.resident c) (.after kr.handle) c f := by
   have htc : t.handle = c := (findList?_some f.roots t hgc).1
   have hsite : Dest.site f (.after kr.handle) = some q := by
-    simp only [Dest.site]; exact Forest.parent?_of_ctx sq.ctx
+    simp only [Dest.site]; exact hpar
   have hspec := F.spec (.after kr.handle) hocc hsite (fun ψ hk hψ => natFor_insertAfterTop hk _ hψ)
   simp only [Dest.insert] at hspec
   rw [hspec]
@@ -80,19 +84,7 @@ theorem insertAfterTail_far {f : Forest} {c : Nat} {t : HTree} {q : Nat} {vq : V
   have hstrictY : f.consolidation = true → noAdjacentText (A.map φ ++ φ kr :: B.map φ) = true := by
     intro hc
     rw [← hmapL, noAdj_map F.kid]
-    exact (validTree_node (sq.valid (norm hc))).2.2.1 rfl
-  -- the insertion itself
-  have hplace : (X.checkedInsertAfter kr.handle c) =
-      (Y.editAt (some q) (insertAfterTop kr.handle t), true) := by
-    obtain ⟨φ', hk', _, sXq⟩ := F.xsite
-    have hm : (A ++ kr :: B).map φ' = A.map φ' ++ φ' kr :: B.map φ' := by simp
-    rw [hm] at sXq
-    have := Forest.checkedInsertAfter_ok F.xget sXq hq (by rw [hk'.handle]; exact hrc)
-    rw [hk'.handle] at this
-    rw [this, F.xcut]
-    have hctx := sY.ctx
-    rw [F.kid.handle] at hctx
-    rw [Forest.placeAfter_of_ctx t sY.nd hctx]
+    exact V.noadj hc
   -- Flow 1
   have flow1 : X.addConsolidate c (some kr.handle) (X.nextSibling kr.handle) = (X, false) →
       (f.consolidation = true → ¬ (kr.value.isText = true ∧ t.value.isText = true)) →
@@ -150,9 +142,9 @@ theorem insertAfterTail_far {f : Forest} {c : Nat} {t : HTree} {q : Nat} {vq : V
     subst hXf
     have htt : t.value.isText = true := isText_iff_textData.2 ⟨tc, htd⟩
     have hleaf_t : t.kids = [] := leaf_of_text inv.valid hgc htt
-    have hkr_get : X.get? kr.handle = some kr := sq.getKid
-    have hnext : X.nextSibling kr.handle = nextOf B kr := Forest.nextSibling_of_ctx sq.ctx
-    have hleafL := sq.leaf inv.valid
+    have hkr_get : X.get? kr.handle = some kr := V.get kr (by simp)
+    have hnext : X.nextSibling kr.handle = nextOf B kr := hnextV rfl
+    have hleafL := V.leaf
     cases hta : textData kr with
     | some ta =>
       -- merged into the reference node (the earlier one)
@@ -162,7 +154,7 @@ theorem insertAfterTail_far {f : Forest} {c : Nat} {t : HTree} {q : Nat} {vq : V
       have hkrt : kr.value.isText = true := isText_iff_textData.2 ⟨ta, hta⟩
       have hflow := F.flow2 rfl kr.handle (.text (ta ++ tc)) ⟨kr, by simp, rfl⟩ hrc hleaf_t (by
         intro k' hk' e
-        obtain ⟨ndL, _⟩ := sq.nodupKids
+        have ndL := V.nd
         obtain ⟨tA, tB⟩ := tops_ne_of_nodup ndL
         have : k' = kr := by
           cases List.mem_append.1 hk' with
@@ -217,10 +209,7 @@ theorem insertAfterTail_far {f : Forest} {c : Nat} {t : HTree} {q : Nat} {vq : V
           rw [hnext] at h
           simp [nextOf] at h)) (fun _ h => hnkr h.1) (fun _ kb h => by cases h)
       | cons kb B2 =>
-        have skb : SiteAt X q vq ((A ++ [kr]) ++ kb :: B2) := by
-          have : (A ++ [kr]) ++ kb :: B2 = A ++ kr :: kb :: B2 := by simp
-          rw [this]; exact sq
-        have hkb_get : X.get? kb.handle = some kb := skb.getKid
+        have hkb_get : X.get? kb.handle = some kb := V.get kb (by simp)
         cases htb : textData kb with
         | none =>
           refine flow1 (Forest.addConsolidate_none hprev (by
@@ -252,7 +241,9 @@ theorem insertAfterTail_far {f : Forest} {c : Nat} {t : HTree} {q : Nat} {vq : V
             exact Forest.addConsolidate_next hc (hXtext.trans htd) hprev ((Forest.textOf_of_get hkb_get).trans htb)
           have hflow := F.flow2 rfl kb.handle (.text (tc ++ tb)) ⟨kb, by simp, rfl⟩ hkbc hleaf_t (by
             intro k' hk' e
-            obtain ⟨ndL, _⟩ := skb.nodupKids
+            have ndL : (handlesList ((A ++ [kr]) ++ kb :: B2)).Nodup := by
+              have := V.nd
+              rwa [show A ++ kr :: kb :: B2 = (A ++ [kr]) ++ kb :: B2 by simp] at this
             obtain ⟨tA, tB⟩ := tops_ne_of_nodup ndL
             have : k' = kb := by
               have hk'' : k' ∈ (A ++ [kr]) ++ kb :: B2 := by simpa using hk'
@@ -293,6 +284,31 @@ theorem insertAfterTail_far {f : Forest} {c : Nat} {t : HTree} {q : Nat} {vq : V
           have e2 : A.map φ ++ φ kr :: t :: φ kb :: B2.map φ = (A.map φ ++ [φ kr]) ++ t :: φ kb :: B2.map φ := by simp
           rw [e2, mergeRuns_seam _ (textData_some htd) hvkb hAkrt hkbB]
           simp [join, Keep.resident, htc]
+
+/-- The far geometry. -/
+theorem insertAfterTail_far {f : Forest} {c : Nat} {t : HTree} {q : Nat} {vq : Value} {A : List HTree}
+    {kr : HTree} {B : List HTree} {X Y : Forest} {φ : HTree → HTree} (inv : f.Inv) (norm : f.Normal)
+    (F : Far f (Keep.resident c) c t q vq (A ++ kr :: B) X Y φ) (sq : SiteAt f q vq (A ++ kr :: B))
+    (hgc : f.get? c = some t) (hX : X = f ∨ textData t = none) (hrc : kr.handle ≠ c)
+    (hkrn : kr.value.isNormal = true) (hq : q ∉ handles t)
+    (hsame : ¬ nextOf B kr = some c)
+    (hocc : Dest.occupiedBy f c (.after kr.handle) = false) :
+    (insertAfterTail X kr.handle c).1 = specMove (Keep.resident c) (.after kr.handle) c f := by
+  have hplace : (X.checkedInsertAfter kr.handle c) =
+      (Y.editAt (some q) (insertAfterTop kr.handle t), true) := by
+    obtain ⟨φ', hk', _, sXq⟩ := F.xsite
+    have hm : (A ++ kr :: B).map φ' = A.map φ' ++ φ' kr :: B.map φ' := by simp
+    rw [hm] at sXq
+    have := Forest.checkedInsertAfter_ok F.xget sXq hq (by rw [hk'.handle]; exact hrc)
+    rw [hk'.handle] at this
+    rw [this, F.xcut]
+    have hmapL : (A ++ kr :: B).map φ = A.map φ ++ φ kr :: B.map φ := by simp
+    have sY : SiteAt Y q vq (A.map φ ++ φ kr :: B.map φ) := hmapL ▸ F.ysite
+    have hctx := sY.ctx
+    rw [F.kid.handle] at hctx
+    rw [Forest.placeAfter_of_ctx t sY.nd hctx]
+  exact insertAfterTail_core inv F (View.of_site inv norm sq) (Forest.parent?_of_ctx sq.ctx)
+    (fun _ => Forest.nextSibling_of_ctx sq.ctx) hplace hgc hX hrc hkrn hsame hocc
 
 end XotModel
 
